@@ -277,6 +277,6 @@ pub fn def() -> PropertyDef {
             .into(),
         assumptions: vec!["the reference commitment uses the reference's own Pedersen generators".into()],
         exhaustive: false,
-        subs: vec![wit_sub::<F>((6000, 200_000)), wit_sub::<R>((800, 12_000))],
+        subs: vec![wit_sub::<F>((40_000, 500_000)), wit_sub::<R>((4000, 30_000))],
     }
 }
